@@ -4,9 +4,17 @@
 # violation ("never raise an alarm on code where the property holds"). Always reverts /repo.
 cd "$(dirname "$0")/.."
 ok=0; bad=0
-for d in benign/*.diff; do
+for d in benign/*${1:-}*.diff; do
   n=$(basename "$d" .diff)
   case "$n" in
+    C0[1-5]b*|C10b*) props="C01 C02 C03 C04 C05 C10 C19" ;;
+    C0[6-8]b*) props="C06 C07 C08 C19" ;;
+    C09b*) props="C09 C02 C12 C19" ;;
+    C11b*) props="C11 C08 C19" ;;
+    C12b*|C13b*|C14b*|C16b*|C17b*) props="C12 C13 C14 C16 C17 C09 C19" ;;
+    C15b*) props="C15 C14 C19" ;;
+    C18b*|C20b*) props="C18 C20 C19" ;;
+    C19b*) props="C19 C06 C07 C08 C01" ;;
     codec_*) props="C01 C02 C03 C04 C05 C10 C19" ;;
     count_*) props="C11 C06 C07 C08 C19" ;;
     amfid_*) props="C12 C14 C19 C09" ;;
